@@ -61,6 +61,10 @@ add("C12","E1+E4 route closure","exploration",
     "An explicit route table of every public way to obtain NonZero<T>/Odd<T> (T in Limb, Uint<1,2,4>, Int, BoxedUint): new/new_unwrap/to_nz/to_odd/expect, constants, Default, NonZeroU8..U128 conversions, byte/hex decoders in both byte orders, serde Deserialize, abs_sign, as_nz_ref, From<Odd<Uint>>, params modulus(), Random under scripted RNG streams whose first 0..=3 draws are zero/even; every route applied to the alphabet {0,1,2,3,MAX,MAX-1, even/odd patterns}; the produced set is closed under conditional_select (both choices, explicit-state worklist). Invariant on every state: non-zero / odd, decoded in the stated byte order; consumers accept every produced value. States and transitions are reported.",
     ASSUME, "explicit-state closure of the wrapper-producing routes on the real code (worklist over produced values, invariant checked on every state), scripted-environment enumeration for the RNG routes", "DESIGN.md §3.C12")
 
+add("C08","E2 stateright explicit-state search","model_checking",
+    "A two-register machine whose transitions are the REAL Montgomery-form operations (42 forms: + - * neg square double halve by value/ref/assign/inherent/trait/multiplier-object, zero/one/new(seed), swap, select, round trip through from_montgomery(to_montgomery()), copy_montgomery_from, Const->Dyn->Boxed conversion) is explored breadth-first with stateright: the COMPLETE reachable state graph (so every finite history) for all odd moduli <= 31 (quick) / <= 255 (thorough) in MontyForm<1..4>, BoxedMontyForm and ConstMontyForm, and depth-bounded (3 / 4-5) graphs for adversarial large moduli up to 32/33 limbs. Invariant in every state: representative < m and retrieve() equals the Z/mZ reference carried in the state. Parameter sets from new / new_vartime / from_const_params / impl_modulus! must be equal and equal to their definitions.",
+    ASSUME + " Large moduli: histories beyond the depth bound are not explored.", "explicit-state model checking (stateright BFS) whose next_state calls the real implementation; invariant on every reachable state", "DESIGN.md §3.C08")
+
 NOT_YET = {}
 ALL = [f"C{i:02d}" for i in range(1,21)]
 import os, sys
